@@ -137,6 +137,13 @@ def directed_scenarios():
              ({"o": {"a": 1}, "q": {"k": 1, "n": "x"}}, {"o": {"a": 1}, "q": {"k": 1, "n": "y"}})]
     for dexpr in ("x: o && q", "x: o ? q : o", "x: q, y: o", "...q, k: o.a", "x: [o, q][1]", "x: {k: q.k, n: q.n}"):
         out.append(('<template name="t">{{x.k}}{{x.n}}{{k}}{{n}}</template><template is="t" data="{{ %s }}"/>' % dexpr, tdata))
+    # every attribute family: a value that becomes undefined / null / empty and comes back
+    U = {"$": "undefined"}
+    trans = [({"s": a}, {"s": b}) for a in ("x", U, None, "") for b in ("y", U, None, "") if json.dumps(a) != json.dumps(b)]
+    for tpl in ('<view slot="{{s}}"/>', '<block slot="{{s}}">t</block>', '<slot name="n" slot="{{s}}"/>', '<view title="{{s}}" id="{{s}}" class="{{s}}" style="{{s}}"/>',
+                '<view data-a="{{s}}" data:b="{{s}}" mark:m="{{s}}" hidden="{{s}}"/>', '<view slot="p{{s}}"/>', '<slot name="{{s}}"/>', '<template is="{{s}}"/>x',
+                '<view wx:if="{{s}}" slot="{{s}}">{{s}}</view><view wx:else slot="{{s}}">e</view>'):
+        out.append((tpl, trans))
     return out
 
 
@@ -155,10 +162,12 @@ def path_write_scenarios():
     """[(template, D0, [(path, value)])]: bindings whose value moves between operands (object spread, conditionals, logic operators, array
     literals, template data) x one or two path writes, incl. writes that create an intermediate object; the update-path tree is the one
     the framework builds from the change list"""
-    D0 = {"x": {"d": 1, "c": 5}, "o": {}, "p": {"a": {"d": 7}}, "c": 0}
+    D0 = {"x": {"d": 1, "c": 5}, "o": {}, "p": {"a": {"d": 7}}, "c": 0, "h": [{"d": 5}]}
     exprs = ["{a:x,...o}.a.d", "{...o,a:x}.a.d", "{...p,...o}.a.d", "{...o,...p}.a.d", "{a:x,...o}.a", "{a:x,...o}.a.c", "(c?x:o.a).d", "(o.a||x).d",
              "(o.a??x).d", "(o.a&&x).d", "[x,o.a][1].d", "[x,o.a][c].d", "{a:o.a}.a.c", "{a:o.a,b:x}.a.d", "o.a.c", "o.a.d", "o.a", "o[x.d==1?'a':'b'].c",
-             "{a:x,...p,...o}.a.d", "{...{a:x},...o}.a.d", "f(o.a).d"]
+             "{a:x,...p,...o}.a.d", "{...{a:x},...o}.a.d", "f(o.a).d",
+             # array literals: items after a spread operand have no fixed index
+             "[...h,x,c][1].d", "[...h,x.d,c][2]", "[x,...h,c][2]", "[...h,...h,x][2].d", "[...h,x][h.length].d", "[c,...h,x.d][2]", "[...h,,x.d][2]"]
     writes = [(("o", "a", "c"), 1), (("o", "a"), {"d": 2}), (("o", "b", "c"), 1), (("p", "a", "d"), 8), (("o", "a", "d"), 3), (("x", "d"), 2),
               (("c",), 1), (("p", "b", "d"), 4), (("o", "a", "e", "f"), 1)]
     tdata = ["a:x,...o", "...o,a:x", "...p,...o", "a:x,...p,...o", "a:o.a", "a:c?x:o.a", "a:o.a||x"]
